@@ -27,7 +27,7 @@ var c11InsertExempt = map[string]string{
 }
 
 func C11(ctx *core.Ctx, r *core.Report) {
-	r.Explanation = "Where features and deviations are applied, decided on all paths of the resolver: every insertion of a guardable definition (data node, case, action, notification — in place, from a grouping or from an augment) is dominated by checkFeature on that definition or on the definition it was cloned from; when a feature is off inside a loop over siblings only that sibling is skipped; errors of feature evaluation are returned and a malformed expression can fail; every property a deviate statement stores is read when the deviation is applied, and applied once; not-supported removes the target by identity. Not decided: the expression evaluator's precedence/associativity (a function of the expression string), the polarity of the equality tests in deviate delete."
+	r.Explanation = "Where features and deviations are applied, decided on all paths of the resolver: every insertion of a guardable definition (data node, case, action, notification — in place, from a grouping or from an augment) is dominated by checkFeature on that definition or on the definition it was cloned from; when a feature is off inside a loop over siblings only that sibling is skipped; errors of feature evaluation are returned and a malformed expression can fail; every property a deviate statement stores is read when the deviation is applied, and applied once; not-supported removes the target by identity. The tests for deviate add, replace and delete are independent of each other; no successful return of supportedFeatures.Initialize bypasses the merge of the module's features into the enabled set. Not decided: the expression evaluator's precedence/associativity (a function of the expression string), the polarity of the equality tests in deviate delete."
 	check := ctx.Fn("meta", "checkFeature")
 	if check == nil {
 		r.Fatalf("anchor meta.checkFeature not found")
